@@ -79,6 +79,7 @@ const (
 	CSerial  Class = "serial" // PostgreSQL serial types
 	CUser    Class = "user"   // PostgreSQL user-defined (extension) type, e.g. citext
 	CArray   Class = "array"  // PostgreSQL array of a base type
+	CNet     Class = "net"    // PostgreSQL network address types (inet, cidr)
 )
 
 // Type is a column type: class, dialect spelling and parameters.
@@ -561,7 +562,7 @@ func (m *Model) Validate() error {
 				return fmt.Errorf("%s.%s: unknown enum %s", t.Name, c.Name, c.Type.T)
 			}
 			if c.Type.Class == CEnum && m.Dialect == SQLite || c.Type.Class == CSet && m.Dialect != MySQL ||
-				(c.Type.Class == CSerial || c.Type.Class == CUser || c.Type.Class == CArray) && m.Dialect != Postgres {
+				(c.Type.Class == CSerial || c.Type.Class == CUser || c.Type.Class == CArray || c.Type.Class == CNet) && m.Dialect != Postgres {
 				return fmt.Errorf("%s.%s: type class %s on %s", t.Name, c.Name, c.Type.Class, m.Dialect)
 			}
 		}
